@@ -186,6 +186,10 @@ fn impulses<T: Flt>(acc: &mut Acc, tier: Tier, len: usize, window: WindowFunctio
                 ("opposite-pair-4-apart-in-silence", Box::new(|i| if i == 13 { 0.75 } else if i == 17 { -0.75 } else { 0.0 })),
                 ("opposite-pair-8-apart-in-silence", Box::new(|i| if i == 12 { 0.75 } else if i == 20 { -0.75 } else { 0.0 })),
                 ("silence-then-noise", Box::new(|i| if i < 24 { 0.0 } else { (splitmix(i as u64) >> 44) as f64 / 524288.0 - 1.0 })),
+                // one infinite sample in otherwise finite data: the sum is +-inf in any summation
+                // order (the kernels must agree on the class and the sign, not turn it into NaN)
+                ("one-infinite-sample", Box::new(|i| if i == 11 { f64::INFINITY } else { (splitmix(i as u64 ^ 77) >> 44) as f64 / 524288.0 - 1.0 })),
+                ("one-negative-infinite-sample-late", Box::new(move |i| if i + 20 == total { f64::NEG_INFINITY } else { 0.25 })),
             ];
             for (wname, f) in &waves {
                 let wave: Vec<T> = (0..total).map(|i| T::from64(f(i))).collect();
@@ -196,6 +200,17 @@ fn impulses<T: Flt>(acc: &mut Acc, tier: Tier, len: usize, window: WindowFunctio
                     let bound = (len as f64 / 4.0 + 8.0) * eps * sum_abs + (len as f64 + 8.0) * if T::IS_F32 { 1.5e-45 } else { 5e-324 };
                     acc.evals += 1;
                     for (i, (name, _)) in kernels.iter().enumerate().skip(1) {
+                        if !vals[0].is_finite() || !vals[i].is_finite() {
+                            // non-finite results are compared by class: NaN with NaN, an infinity
+                            // with the infinity of the same sign
+                            let same = (vals[0].is_nan() && vals[i].is_nan()) || (vals[0] == vals[i]);
+                            if !same {
+                                fail(acc, &format!("non-finite:{}-vs-scalar", name),
+                                    format!("{} len {} os {} sub {} waveform {} start {}: {} returns {:?}, scalar {:?}", T::NAME, len, os, sub, wname, start, name, vals[i], vals[0]),
+                                    format!("impulse T={} len={} os={} window={}", T::NAME, len, os, window_name(window)));
+                            }
+                            continue;
+                        }
                         let d = (vals[i] - vals[0]).abs();
                         if sum_abs > 0.0 {
                             acc.worst_ulps = acc.worst_ulps.max(d / (eps * sum_abs));
@@ -291,7 +306,7 @@ impl Check for C15 {
         Ok(json!({
             "label": label, "evaluations": acc.evals, "nontrivial": acc.nontrivial,
             "outcomes": acc.outcomes.iter().collect::<Vec<_>>(), "found": acc.found,
-            "samples": [{"item": label, "point": "unit impulse at every position index-8..index+len+8, every start index and slice offset of the tier, all three kernels; fourteen hard waveforms"}],
+            "samples": [{"item": label, "point": "unit impulse at every position index-8..index+len+8, every start index and slice offset of the tier, all three kernels; sixteen hard waveforms"}],
             "extra": {"worst_ulps": acc.worst_ulps},
         }))
     }
@@ -304,7 +319,7 @@ impl Check for C15 {
         crate::frame::replay_by_item(self, replay)
     }
     fn rule(&self, tier: Tier) -> String {
-        format!("full product of: T in {{f32,f64}} x sinc_len in {} x oversampling {{1,2,3,5,(7),128,256,(2048)}} x subindex (all for <=7; 10-25 representatives incl. both ends and powers of two for the large factors) x start index x slice offset x unit impulse at every position index-8..index+len+8, on scalar/SSE/AVX: bit-identical and exactly 0 outside the window; plus fourteen hard waveforms within (len/4+8) eps of the sum of |products|; all six windows at len 64; run-time dispatch vs explicit kernels on 4 resampler configurations. Non-trivial = impulse inside the window", if tier == Tier::Quick { "all 64 multiples of 8 up to 512 (reduced start/offset sets)" } else { "all 64 multiples of 8 up to 512" })
+        format!("full product of: T in {{f32,f64}} x sinc_len in {} x oversampling {{1,2,3,5,(7),128,256,(2048)}} x subindex (all for <=7; 10-25 representatives incl. both ends and powers of two for the large factors) x start index x slice offset x unit impulse at every position index-8..index+len+8, on scalar/SSE/AVX: bit-identical and exactly 0 outside the window; plus sixteen hard waveforms within (len/4+8) eps of the sum of |products|; all six windows at len 64; run-time dispatch vs explicit kernels on 4 resampler configurations. Non-trivial = impulse inside the window", if tier == Tier::Quick { "all 64 multiples of 8 up to 512 (reduced start/offset sets)" } else { "all 64 multiples of 8 up to 512" })
     }
     fn assumptions(&self) -> Vec<String> {
         vec![
